@@ -183,7 +183,11 @@ class P:
                 return "model/implementation disagreement on the delivered stream"
         else:
             lost = len(msgs) - len(got)
-            bound = sum(4 + retry + int(f[2] / max(gap, 1)) + 2 for f in faults)
+            # the downtimes as they really were (reported by the sink; a loaded machine stretches the nominal ones)
+            md = re.search(r"DOWN=([\d,]+)", impl)
+            real = [int(x) for x in md.group(1).split(",")] if md else []
+            extra_down = max(0, sum(real) - sum(f[2] for f in faults))
+            bound = sum(4 + retry + int(f[2] / max(gap, 1)) + 2 for f in faults) + int(extra_down / max(gap, 1))
             if lost > bound:
                 return "%d messages lost around %d sink failure(s) (bound %d; retry-max %d)" % (lost, len(faults), bound, retry)
             if last != len(msgs) - 1:
